@@ -430,15 +430,25 @@ func (m *sessRunner) slotFree() bool {
 	return false
 }
 
-// plainDocs reads one collection through the public API without a session.
-func (m *sessRunner) plainDocs(coll string) (out string) {
+// plainDocs reads one collection through the public API without a session (sid < 0) or with
+// the context of session sid.
+func (m *sessRunner) plainDocs(coll string, sid int) (out string) {
 	defer func() {
 		if p := recover(); p != nil {
 			out = `{"panic":` + run.JS(fmt.Sprint(p)) + `}`
 		}
 	}()
-	csr, err := m.client.Database(sessDB).Collection(coll).Find(context.Background(), bson.D{})
-	if err != nil {
+	var csr lungo.ICursor
+	var err error
+	if sid < 0 {
+		csr, err = m.client.Database(sessDB).Collection(coll).Find(context.Background(), bson.D{})
+	} else {
+		_ = lungo.WithSession(context.Background(), m.sess[sid], func(sc lungo.ISessionContext) error {
+			csr, err = m.client.Database(sessDB).Collection(coll).Find(sc, bson.D{})
+			return nil
+		})
+	}
+	if err != nil || csr == nil {
 		return `{"err":"err"}`
 	}
 	var docs []bson.D
@@ -686,9 +696,21 @@ func (m *sessRunner) step(st *sessStep, h *sessHist) sessOut {
 	// dirty read: while a transaction is open a plain Find sees the data committed at its start
 	if postHolder >= 0 && m.openDocs != nil {
 		for _, c := range sessColls {
-			if got := m.plainDocs(c); got != m.openDocs[c] {
+			if got := m.plainDocs(c, -1); got != m.openDocs[c] {
 				viol("C03", "a Find without the session sees something else than the committed data while a transaction is open", "dirty-read",
 					"coll "+c+"\ncommitted "+m.openDocs[c]+"\nfound     "+got)
+			}
+		}
+	}
+	// read-your-writes: a Find with the session context sees the transaction's own catalog
+	if postHolder >= 0 && !m.dead {
+		if t := m.sess[postHolder].Transaction(); t != nil {
+			for _, c := range sessColls {
+				want := sessDocsOf(t.Catalog(), lungo.Handle{sessDB, c})
+				if got := m.plainDocs(c, postHolder); got != want {
+					viol("C03", "a Find with the session context does not see the transaction's own catalog", "txn-read-not-own-view",
+						"coll "+c+"\nview  "+want+"\nfound "+got)
+				}
 			}
 		}
 	}
